@@ -176,18 +176,36 @@ pub fn run(ctx: &Ctx) -> Outcome {
             }
             // keystream independence of the data (stream modes), and identical backend call shapes across data
             if stream_fam {
-                for (an, a) in &datas {
-                    for (bn, b) in &datas {
-                        rep.case(|| {
-                            let cut = (bs + 1).min(l / 2);
-                            let pieces = [p(cut, Kind::InPlace), p(l - cut, Kind::B2b)];
-                            let oa = (dec.run)(key, &iv, a, &pieces, &pre)?;
-                            let ob = (dec.run)(key, &iv, b, &pieces, &pre)?;
-                            let ka: Vec<u8> = oa.out.iter().zip(a).map(|(x, y)| x ^ y).collect();
-                            let kb: Vec<u8> = ob.out.iter().zip(b).map(|(x, y)| x ^ y).collect();
-                            ensure!(ka == kb && oa.state == ob.state, format!("keystream_depends_on_data/{}", fam), "{} iv={}: keystream (output xor input) for data {} is {} but for data {} it is {}", dec.ty, ivn, an, short(&ka), bn, short(&kb));
-                            Ok(())
-                        });
+                // through EVERY front-end of the family (byte stream, keystream core apply / write, OFB as block encryptor and
+                // decryptor), first piece of two granules-or-more in one call form, rest in another
+                let mut fes = family_frontends(cfg, fam, Dir::Enc);
+                if *fam == "ofb" {
+                    fes.extend(family_frontends(cfg, fam, Dir::Dec));
+                }
+                for fe in fes.iter().filter(|f| f.multi) {
+                    let g = fe.gran;
+                    let lf = l / g * g;
+                    let cut = if g == 1 { (bs + 1).min(lf / 2) } else { (2 * g).min(lf.saturating_sub(g)) };
+                    if cut == 0 || cut >= lf {
+                        continue;
+                    }
+                    for (k1, k2) in [(Kind::InPlace, Kind::B2b), (Kind::B2b, Kind::InPlace), (Kind::B2b, Kind::B2b), (Kind::InOut, Kind::Alias)] {
+                        if !fe.kinds.contains(&k1) || !fe.kinds.contains(&k2) {
+                            continue;
+                        }
+                        for (an, a) in &datas {
+                            for (bn, b) in &datas {
+                                rep.case(|| {
+                                    let pieces = [p(cut, k1), p(lf - cut, k2)];
+                                    let oa = (fe.run)(key, &iv, &a[..lf], &pieces, &pre)?;
+                                    let ob = (fe.run)(key, &iv, &b[..lf], &pieces, &pre)?;
+                                    let ka: Vec<u8> = oa.out.iter().zip(a).map(|(x, y)| x ^ y).collect();
+                                    let kb: Vec<u8> = ob.out.iter().zip(b).map(|(x, y)| x ^ y).collect();
+                                    ensure!(ka == kb && oa.state == ob.state, format!("keystream_depends_on_data/{}", fam), "{} ({}) iv={} pieces [{}]: keystream (output xor input) for data {} is {} but for data {} it is {}", fe.ty, fe.name, ivn, ps(&pieces), an, short(&ka), bn, short(&kb));
+                                    Ok(())
+                                });
+                            }
+                        }
                     }
                 }
             }
